@@ -21,7 +21,7 @@ ID = "C15"
 LEVEL = "exploration"
 RULE = ("random pairs of sub-query conditions (depth<=2) over one P and one Q variable; connectives & and | (also mixed "
         "with a plain condition); sub-query kinds an(entity(x0,c)), an(entity(x1,c)), an(set_of([x0,x1],c)); positions "
-        "condition / comparison operand (an and the, also inside the first alternative of a disjunction, also correlated with the enclosing query's variable, also over objects with value equality) / predicate-form argument / argument of a @predicate or of a rule's constructor while the enclosing conditions bind the sub-query's variable themselves; caching on and off. Non-trivial: the "
+        "condition / comparison operand (an and the; the sub-query itself or an attribute of it; as the container of a membership test; also inside the first alternative of a disjunction, also correlated with the enclosing query's variable, also over objects with value equality) / predicate-form argument / argument of a @predicate or of a rule's constructor while the enclosing conditions bind the sub-query's variable themselves; caching on and off. Non-trivial: the "
         "oracle result is neither empty nor the whole product. distinct by structural hash.")
 LEVEL_TEXT = ("Reference-model monitoring with a metamorphic twin: the composed query, the query with the sub-query's "
               "conditions written in place, and the plain-Python oracle must agree on the result set (compared by identity).")
@@ -37,14 +37,14 @@ def plan(tier, seed):
 
 def floors(tier):
     return {"distinct_nontrivial": 200, "cls:pos:cond": 500, "cls:pos:operand_an": 100, "cls:pos:operand_the": 30,
-            "cls:pos:argument": 100, "cls:pos:correlated_the": 100, "cls:pos:correlated_an": 100, "cls:pos:operand_value_eq": 100, "cls:pos:pred_arg_bound": 100, "cls:pos:ctor_arg_bound": 100, "cls:pos:operand_in_or": 100, "cls:conn:&": 150, "cls:conn:|": 150, "cls:sub:set": 100, "cls:sub:ent0": 100,
+            "cls:pos:argument": 100, "cls:pos:correlated_the": 100, "cls:pos:correlated_an": 100, "cls:pos:operand_value_eq": 100, "cls:pos:pred_arg_bound": 100, "cls:pos:ctor_arg_bound": 100, "cls:pos:operand_in_or": 100, "cls:pos:operand_attr": 100, "cls:pos:container": 100, "cls:conn:&": 150, "cls:conn:|": 150, "cls:sub:set": 100, "cls:sub:ent0": 100,
             "cls:sub:ent1": 100, "cls:with_plain": 100, "re:An@.*\\.enter": 1000}
 
 
 def gen_case(rng):
     world = D.random_world(rng, np_=(2, 4), nq=(2, 4))
     pos = rng.choice(["cond", "cond", "cond", "operand_an", "operand_the", "argument", "correlated_the", "correlated_an",
-                      "operand_value_eq", "pred_arg_bound", "ctor_arg_bound", "operand_in_or"])
+                      "operand_value_eq", "pred_arg_bound", "ctor_arg_bound", "operand_in_or", "operand_attr", "container"])
     case = {"world": world, "pos": pos, "caching": rng.random() < 0.7}
     if pos in ("correlated_the", "correlated_an"):
         case["attr"] = rng.choice(["a", "b"])
@@ -67,6 +67,7 @@ def gen_case(rng):
     else:
         case["c1"] = C.gen_cond(rng, ["P"], rng.randint(0, 2))
         case["k0"], case["k"] = rng.randint(1, 3), rng.randint(0, 2)
+        case["op2"] = rng.choice(["<=", "<", "==", "!="])
     return case
 
 
@@ -98,6 +99,13 @@ def expected(case, world):
         # the compared operand ranges over COPIES of the objects (equal, not identical): ==, i.e. VALUE equality
         return [(f"copy{i}",) for i, e in enumerate(_copies(world)) if any(e == s_ for s_ in sols)]
     sols = [p for p in ps if C.holds(case["c1"], (p,))]
+    if case["pos"] == "operand_attr":
+        # x.a OP an(entity(y, c1)).b : an ATTRIBUTE of the sub-query is the operand
+        op = C.OPS[case.get("op2", "<=")]
+        return [(m[id(q)],) for q in qs if any(op(q.a, p.b) for p in sols)]
+    if case["pos"] == "container":
+        # in_(x.a, an(entity(y.t, c1))) / contains(an(entity(y.t, c1)), x.a): the sub-query's solutions are the containers
+        return [(m[id(q)],) for q in qs if any(q.a in p.t for p in sols)]
     if case["pos"] == "operand_in_or":
         # (x.p == an(entity(y, c1))) | (x.a == k0)
         return [(m[id(q)],) for q in qs if any(q.p is p for p in sols) or q.a == case["k0"]]
@@ -185,8 +193,22 @@ def run(case, world, caching, times=1, flattened=False):
             else:
                 y = let(D.P, ps)
                 x = let(D.Q, qs)
-                if flattened and case["pos"] != "operand_in_or":
+                if flattened and case["pos"] not in ("operand_in_or", "operand_attr", "container"):
                     q = an(set_of([x], x.p == y, C.build(case["c1"], [y], 0, False)))
+                elif case["pos"] == "operand_attr":
+                    op = C.OPS[case.get("op2", "<=")]
+                    if flattened:
+                        q = an(set_of([x], C.build(case["c1"], [y], 0, False), op(x.a, y.b)))
+                    else:
+                        q = an(set_of([x], op(x.a, an(entity(y, C.build(case["c1"], [y], 0, False))).b)))
+                elif case["pos"] == "container":
+                    from entity_query_language import in_, contains
+                    if flattened:
+                        q = an(set_of([x], C.build(case["c1"], [y], 0, False), in_(x.a, y.t)))
+                    elif case.get("k", 0) % 2:
+                        q = an(set_of([x], in_(x.a, an(entity(y.t, C.build(case["c1"], [y], 0, False))))))
+                    else:
+                        q = an(set_of([x], contains(an(entity(y.t, C.build(case["c1"], [y], 0, False))), x.a)))
                 elif case["pos"] == "operand_in_or" and flattened:
                     q = an(set_of([x], ((x.p == y) & C.build(case["c1"], [y], 0, False)) | (x.a == case["k0"])))
                 elif case["pos"] == "operand_in_or":
